@@ -17,7 +17,7 @@ def c10(check):
 
 
 def c11(check):
-    check("C11", "fault_enumeration",
+    check("C11", "exploration",
           "Quick tier: seeded search over restart histories - an uninterrupted reference run(T) against 2-4 segments that end by "
           "returning or by a simulated process kill at an iteration boundary, restarted with restart=True under changing storage "
           "mode / Klist_part / serial-or-simulated-ray and every directory listing order policy; every reported iteration is compared "
